@@ -575,7 +575,12 @@ func (p *Prober) probeInterval() time.Duration {
 	// qps must be > 0 as we validate this when constructing a CSProber.
 	// qps is converted to a duration for type reasons, however it does not represent a value duration.
 	// Use granularity of nanosecond to support float division. Useful for supporting probes with QPS < 1.
-	return time.Duration(float64(time.Second) / p.qps)
+	interval := float64(time.Second) / p.qps
+	if interval >= float64(math.MaxInt64) {
+		// Extremely low QPS: the interval does not fit into time.Duration.
+		return time.Duration(math.MaxInt64)
+	}
+	return time.Duration(interval)
 }
 
 // Start starts the prober. This will run a goroutinue until ctx is canceled.
